@@ -103,7 +103,7 @@ var c17WForms = []string{"%+w", "%[1]w", "%8w", "%-6w"}
 
 var c17Dirs = []string{"%v", "%+v", "%s", "%q", "%x", "%d", "%#v", "%8v", "%-6s|"}
 
-// H_c17: the error hook.  p = [error kind, position, directive, n, hook(0/1), panic-in-hook(0/1)]
+// H_c17: the error hook.  p = [error kind, position, directive, n, hook(0/1), panic-in-hook(0/1), earlier call, earlier operand of the same call]
 // positions: 0 top level, 1 %w in HelperForErrorf, 2 exported field, 3 slice element,
 // 4 map value, 5 interface in []interface{}, 6 under Unsafe(), 7 under Safe(), 8 unexported field
 func H_c17(p []int) {
@@ -168,16 +168,39 @@ func H_c17(p []int) {
 		arg = errHolderPriv{e}
 	}
 	var out []byte
+	// p[7] > 0: an earlier operand of the SAME call (not an error: the hook
+	// is not involved) whose method panics or has a nil receiver; what it
+	// leaves in the printer must not change how the error is handled
+	var preArgs []interface{}
+	preFmt := ""
+	var preOut []byte
+	if len(p) > 7 && p[7] > 0 {
+		var pa interface{}
+		switch p[7] {
+		case 1:
+			pa = (*vstrer)(nil)
+		case 2:
+			pa = panStr{"x"}
+		case 3:
+			pa = redact.Safe("pre")
+		case 4:
+			pa = (*pfmter)(nil)
+		}
+		preArgs = []interface{}{pa}
+		preFmt = "%v "
+		preOut = []byte(redact.Sprintf(preFmt, pa))
+		errCalls, nilErrCalls, hookCalls = 0, 0, 0
+	}
 	r := catchRedact(func() redact.RedactableString {
 		if pos == 1 {
-			t, _ := redact.HelperForErrorf("a %w b", arg)
+			t, _ := redact.HelperForErrorf(preFmt+"a %w b", append(preArgs, arg)...)
 			return t
 		}
 		if pos >= 9 {
-			t, _ := redact.HelperForErrorf("a "+c17WForms[pos-9]+" b", arg)
+			t, _ := redact.HelperForErrorf(preFmt+"a "+c17WForms[pos-9]+" b", append(preArgs, arg)...)
 			return t
 		}
-		return redact.Sprintf("a "+d+" b", arg)
+		return redact.Sprintf(preFmt+"a "+d+" b", append(preArgs, arg)...)
 	})
 	vAssert(!r.panicked, "C17/no-panic")
 	if r.panicked {
@@ -185,6 +208,13 @@ func H_c17(p []int) {
 	}
 	out = []byte(r.out)
 	vObserve("out", out)
+	if len(preOut) > 0 {
+		vAssert(hasPrefix(out, preOut), "C17/earlier-operand-intact")
+		if !hasPrefix(out, preOut) {
+			return
+		}
+		out = out[len(preOut):]
+	}
 	wf, _ := wfls(out)
 	vAssert(wf, "C17/wf")
 	dispatched := ek <= 4 // not SafeFormatter / SafeMessager
